@@ -24,6 +24,48 @@ META = {
 }
 
 
+def carve_rules(F, ok, rep, P):
+    """the layout rules of the seek table carved out of the padding at finalize (shared by C09 and C01: a table
+    that is larger than the space taken from the padding overwrites the first frame)"""
+    b = anchor(F, rep, P + ".carve", "encode::Encoder::finalize_inner")
+    if b is None:
+        return
+    # ---- carve
+    ins = call_blocks(b, r"metadata::BlockList::insert$")
+    for bi, t in ins:
+        f = ok.path_facts(b).get(bi, TOP)
+        rep.check(P + ".carve", "seek table inserted only when padding.checked_sub(table size) is Some", fact_match(f, "call-ok", r"BlockSize::checked_sub$") and fact_match(f, "call-ok", r"total_size$"),
+                  loc_of(b, t), "", "the seek table is inserted on a path where its total size (block header + body) was not shown to fit into the padding, or a different amount is taken from the padding; facts: %s" % fact_str(f))
+        # padding size assignment in the same guarded region
+        stores = [bj for bj, bl in enumerate(b.blocks) for s in bl["s"] if s["d"]["p"] == ["*"] and "size" in place_fields(root_place(b, {"l": s["d"]["l"], "p": []}))]
+        rep.check(P + ".carve", "padding is reduced together with the insertion", any(bj == bi or b.dominates(bj, bi) for bj in stores), loc_of(b, t))
+    rep.floor(P + ".carve", "seek table insertions in finalize_inner", len(ins), 1)
+    # total_size = bytes + the 4-byte block header
+    ts = F.one("metadata::MetadataBlock::total_size")
+    hs = F.statics.get("metadata::BlockHeader::SIZE", {}).get("v")
+    good = bool(ts) and hs == 4 and any(strip_generics(callee_name(t)) == "metadata::MetadataBlock::bytes" for _, t in ts[0].calls()) and \
+        any(re.search(r"BlockSize::checked_add$", callee_name(t)) for cb in F.closures_of(ts[0]) for _, t in cb.calls())
+    rep.check(P + ".carve", "MetadataBlock::total_size = bytes() + BlockHeader::SIZE (4)", good, loc_of(ts[0]) if ts else "", "BlockHeader::SIZE = %s" % hs)
+    # the closure computes padding - table (not the reverse)
+    for cb in F.closures_of(b):
+        for _, t in cb.calls():
+            if re.search(r"BlockSize::checked_sub$", callee_name(t)):
+                lhs = root_place(cb, t["a"][0])
+                rhs = root_place(cb, t["a"][1])
+                rep.check(P + ".carve", "new padding = padding - seek table size", lhs["l"] == 1 and rhs["l"] == 2, loc_of(cb, t),
+                          "checked_sub(captured padding size, closure argument)")
+    # placeholder refill keeps the count
+    te = call_blocks(b, r"Contiguous::<MAX, T>::try_extend$")
+    for bi, t in te:
+        tk = [x for k, x in origins(b, t["a"][1]) if k == "call" and callee_name(x).endswith("Iterator::take")]
+        good = False
+        if tk:
+            n = [x for k, x in origins(b, tk[0]["a"][1]) if k == "call"]
+            good = bool(n) and callee_name(n[0]).endswith("::len")
+        rep.check(P + ".carve", "placeholder table is refilled with exactly its original number of points", good, loc_of(b, t))
+    rep.floor(P + ".carve", "placeholder refills", len(te), 1)
+
+
 def run(ctx, rep):
     F = ctx.facts()
     cg = ctx.cg()
@@ -87,34 +129,7 @@ def run(ctx, rep):
                       "%d gate blocks" % len(S), "the final write_blocks is reachable without comparing/storing samples_written")
             rep.check("C09.order", "SampleCountMismatch raised under (declared != written)", any(
                 fact_match(pf.get(bi, frozenset()), "cmp", "^Ne$", "samples_written|NonZero::get", "samples_written|NonZero::get") for bi, s in agg_sites(b, "Error", "SampleCountMismatch")), loc_of(b))
-        # ---- C09.carve
-        ins = call_blocks(b, r"metadata::BlockList::insert$")
-        for bi, t in ins:
-            f = ok.path_facts(b).get(bi, TOP)
-            rep.check("C09.carve", "seek table inserted only when padding.checked_sub(table size) is Some", fact_match(f, "call-ok", r"BlockSize::checked_sub$") and fact_match(f, "call-ok", r"total_size$"),
-                      loc_of(b, t), "", "the seek table is inserted on a path where it was not shown to fit into the padding; facts: %s" % fact_str(f))
-            # padding size assignment in the same guarded region
-            stores = [bj for bj, bl in enumerate(b.blocks) for s in bl["s"] if s["d"]["p"] == ["*"] and "size" in place_fields(root_place(b, {"l": s["d"]["l"], "p": []}))]
-            rep.check("C09.carve", "padding is reduced together with the insertion", any(bj == bi or b.dominates(bj, bi) for bj in stores), loc_of(b, t))
-        rep.floor("C09.carve", "seek table insertions in finalize_inner", len(ins), 1)
-        # the closure computes padding - table (not the reverse)
-        for cb in F.closures_of(b):
-            for _, t in cb.calls():
-                if re.search(r"BlockSize::checked_sub$", callee_name(t)):
-                    lhs = root_place(cb, t["a"][0])
-                    rhs = root_place(cb, t["a"][1])
-                    rep.check("C09.carve", "new padding = padding - seek table size", lhs["l"] == 1 and rhs["l"] == 2, loc_of(cb, t),
-                              "checked_sub(captured padding size, closure argument)")
-        # placeholder refill keeps the count
-        te = call_blocks(b, r"Contiguous::<MAX, T>::try_extend$")
-        for bi, t in te:
-            tk = [x for k, x in origins(b, t["a"][1]) if k == "call" and callee_name(x).endswith("Iterator::take")]
-            good = False
-            if tk:
-                n = [x for k, x in origins(b, tk[0]["a"][1]) if k == "call"]
-                good = bool(n) and callee_name(n[0]).endswith("::len")
-            rep.check("C09.carve", "placeholder table is refilled with exactly its original number of points", good, loc_of(b, t))
-        rep.floor("C09.carve", "placeholder refills", len(te), 1)
+        carve_rules(F, ok, rep, "C09")
 
     # ---- C09.cap -----------------------------------------------------------------------------------------
     ncap = 0
